@@ -7,7 +7,7 @@
     recorded denomination, amount and depositor.  Outside the model: that the chain's
     distribution module accepts the message (it is applied by the harness as a bank transfer to
     the community-pool account after an independent `prost` decode). *)
-From FM Require Import WireFacts ReentrantFees.
+From FM Require Import WireFacts ReentrantFees CallSeqLedger.
 
 (** [charged d m sender s]: what message [m] charges in denomination [d] — nothing unless it is
     a purchase, then floor(0.5 %) of the amount in the fee denomination on each side (C06).
@@ -46,6 +46,15 @@ Theorem C10_fee_ledger_with_reentry : forall w o prog d,
   gap d (fst (rstep w o prog)) = gap d w + (if ok (snd (rstep w o prog)) then rstep_charged d w o prog else 0).
 Proof. exact rstep_pool_ledger. Qed.
 Print Assumptions C10_fee_ledger_with_reentry.
+
+(** Contract-level, under every interleaving (proofs/CallSeqLedger.v): along any sequence of
+    successful marketplace calls, every fee charged ([chg]) is still pending in a record or has
+    been sent to the community pool in a message ([psent]) — exactly once. *)
+Theorem C10_fee_ledger_under_every_interleaving : forall x d s s' deposited sent_out chg psent,
+  Inv s -> mtrace x d s s' deposited sent_out chg psent ->
+  pending d s' + psent = pending d s + chg.
+Proof. exact fee_ledger_under_every_interleaving. Qed.
+Print Assumptions C10_fee_ledger_under_every_interleaving.
 
 (** Contract-local form, for every message from every state satisfying the invariant. *)
 Theorem C10_fee_conservation : forall d o e sender fs m s s' out,
